@@ -128,6 +128,9 @@ fixed("C12", "D46", "^fix: notes search pins --no-color", "with color.ui=always 
 fixed("C03", "D47", "^fix: blaming an empty commit range", "main holds S1's lines 6-7 right below a person's line 5; on a branch the person (no agent) inserts a token into line 5 and deletes line 4; `git merge --squash br`; commit => the person's line (now line 4) was committed as S1's: the target side was blamed over the empty range X..X, for which git silently blames the work tree, so S1's line numbers were off by the lines removed above them", "c03.squash_person_modifies_line_above_ai_block")
 fixed("C03", "D50", "^fix: a line rewritten on the merged side", "main holds session S2's lines 4-5 of f.txt (`# tokA ..`, `tokB ..`); on a branch session S1 replaces them by three lines, one of which also starts with `# `; `git merge --squash br`; commit => S1's line 5 was committed as S2's: on the favoured (target) side of merge_attributions_favoring_first the `# ` left over from S2's old line owned the rewritten line (placeholder author had the same timestamp) and outranked the branch side", "c03.squash_other_session_replaces_lines_with_shared_prefix")
 fixed("C17", "D52", "^fix: file names that start with a double quote", "a tracked file whose name begins and ends with a double quote and contains no whitespace (`\"x\"`, `\"\"`) gets an AI line: the path line was written unquoted, every reader strips one quote from each end of a line that starts with a quote, and the note read back listed another file name (serialize -> parse was not the identity; the AI line was reported human)", "c17.file_name_wrapped_in_double_quotes")
+open_("C20", "D53", "C20/edited-file-not-recorded-in-its-repository@nested-repo", [],
+      "payload: agent-v1 ai_agent report, hook started in <repo>, edited_filepaths = [<repo>/vendor/inner/a.txt] where vendor/inner is an independent repository nested in the outer work tree => exit 0, but the edit is recorded neither in the inner repository (which contains the file) nor anywhere else (files of sibling repositories are routed to their own repository; nested ones are taken for files of the outer work tree and then dropped)",
+      "c20.file_of_nested_repository_edited_from_outer_repository", ["probe:nested-repo"], affects=[])
 open_("C11", "D8", "C11/not-serializable@overlapping-journal-windows", [],
       "schedule: two `git-ai checkpoint` processes (agents S1 on a.txt, S2 on b.txt) both pass their read of .git/ai/working_logs/<HEAD>/checkpoints.jsonl before either writes it back (append_checkpoint and post-commit read-modify-write the journal with no lock) => the later write drops the other record and that agent's line is committed as human; identified by call site: any non-serializable outcome whose schedule has two journal read..exit windows overlapping is counted as this finding",
       "c11.two_checkpoints_both_read_before_either_writes", [])
